@@ -46,11 +46,23 @@ pub(crate) fn call(builtin: Builtin, args: &[Object], gc: &mut GC) -> Result<Obj
 fn call_print(args: &[Object]) -> Result<Object, Error> {
     if !args.is_empty() {
         let mut args = args.iter();
-        let mut format_str = args.next().unwrap().to_string();
+        let template = args.next().unwrap().to_string();
 
+        // Fill in the placeholders from left to right, without looking again
+        // at text that was filled in for an earlier placeholder
+        let mut format_str = String::with_capacity(template.len());
+        let mut rest = template.as_str();
         for replacement in args {
-            format_str = format_str.replacen("{}", &replacement.to_string(), 1);
+            match rest.find("{}") {
+                Some(pos) => {
+                    format_str.push_str(&rest[..pos]);
+                    format_str.push_str(&replacement.to_string());
+                    rest = &rest[pos + 2..];
+                }
+                None => break,
+            }
         }
+        format_str.push_str(rest);
 
         #[cfg(feature = "verif")]
         crate::verif::capture(&format_str);
